@@ -112,9 +112,9 @@ PROPS["C11"] = {
     "harnesses": [
         {"pkg": MD, "func": "VerifH_C11_dedupe_small", "covers": ["dedupe-removed-a-node"]},
         {"pkg": MD, "func": "VerifH_C11_dedupe_anytree", "covers": ["dedupe-removed-a-node"]},
-        {"pkg": MD, "func": "VerifH_C11_dedupe_wide", "covers": ["dedupe-removed-a-node"], "thorough_only": True},
+        {"pkg": MD, "func": "VerifH_C11_dedupe_wide", "covers": ["dedupe-removed-a-node"], "thorough_only": True, "opts": {"max_wall_s": 1500}},
         {"pkg": MD, "func": "VerifH_C11_complete_small", "covers": ["complete-true", "complete-false"]},
-        {"pkg": MD, "func": "VerifH_C11_complete_deep", "covers": ["complete-true", "complete-false"], "thorough_only": True},
+        {"pkg": MD, "func": "VerifH_C11_complete_deep", "covers": ["complete-true", "complete-false"], "thorough_only": True, "opts": {"max_wall_s": 1800}},
         {"pkg": MD, "func": "VerifH_C11_levels", "covers": ["three-levels"]},
         {"pkg": MD, "func": "VerifH_C11_addremove", "covers": ["added", "removed"]},
     ],
@@ -135,7 +135,7 @@ PROPS["C12"] = {
         {"pkg": RX, "func": "VerifH_C12_accounting3", "replay_tries": 40, "covers": ["delivered", "feedback", "finish", "feedback-unknown", "insert-blocks-when-full"]},
         {"pkg": RX, "func": "VerifH_C12_freeze3", "replay_tries": 40, "covers": ["insert-after-freeze", "drained-after-freeze"]},
         {"pkg": RX, "func": "VerifH_C12_stop", "replay_tries": 40, "covers": ["stopped"]},
-        {"pkg": RX, "func": "VerifH_C12_accounting4", "replay_tries": 40, "thorough_only": True, "covers": ["delivered", "feedback", "finish"]},
+        {"pkg": RX, "func": "VerifH_C12_accounting4", "replay_tries": 40, "thorough_only": True, "opts": {"max_wall_s": 1500}, "covers": ["delivered", "feedback", "finish"]},
     ],
 }
 
@@ -215,7 +215,7 @@ PROPS["C19"] = {
     "harnesses": [
         {"pkg": EX, "func": "VerifH_C19_extension", "covers": ["has-extension", "no-extension"]},
         {"pkg": EX, "func": "VerifH_C19_json_depth2", "opts": {"max_steps": 20000000}, "covers": ["json-in-string", "several-urls"]},
-        {"pkg": EX, "func": "VerifH_C19_json_depth3", "opts": {"max_steps": 20000000}, "thorough_only": True, "covers": ["json-in-string", "several-urls"]},
+        {"pkg": EX, "func": "VerifH_C19_json_depth3", "opts": {"max_steps": 20000000, "max_wall_s": 1500}, "thorough_only": True, "covers": ["json-in-string", "several-urls"]},
         {"pkg": EX, "func": "VerifH_C19_s3_legacy", "covers": ["object-linked", "next-page"]},
         {"pkg": EX, "func": "VerifH_C19_s3_v2", "covers": ["objects-and-prefixes", "prefix-linked", "continuation"]},
         {"pkg": EX, "func": "VerifH_C19_m3u8", "covers": ["media", "master", "alternative"]},
